@@ -1,5 +1,6 @@
 // ---- unit head: crate attributes, imports, macro shadows (DESIGN.md 3.2) ----
 #![feature(allocator_api)]
+#![feature(slice_concat_trait)]
 #![allow(unused_imports, unused_macros, dead_code, unused_variables, unused_mut, non_snake_case)]
 use vstd::prelude::*;
 use vstd::string::*;
@@ -11,8 +12,8 @@ use std::collections::HashMap;
 
 // Macro shadows: error *messages* are abstracted to arbitrary strings, `trace!` has no effect,
 // `assert!`/`assert_eq!`/`panic!` become proof obligations (vpanic requires false).
-macro_rules! format { ($($t:tt)*) => { crate::opaque_string() } }
-macro_rules! trace { ($($t:tt)*) => { () } }
+macro_rules! format { ($fmt:literal $(, $arg:expr)* $(,)?) => { { $( crate::fmt_arg(&$arg); )* crate::opaque_string() } }; ($($t:tt)*) => { crate::opaque_string() } }
+macro_rules! trace { ($fmt:literal $(, $arg:expr)* $(,)?) => { { $( crate::fmt_arg(&$arg); )* } }; ($($t:tt)*) => { () } }
 macro_rules! assert_eq { ($a:expr, $b:expr) => { if !($a == $b) { crate::vpanic() } } }
 macro_rules! assert { ($a:expr) => { if !($a) { crate::vpanic() } } }
 // log facade at debug level or above: every argument must be *public* (C17); see prelude/deps_auth.rs
@@ -30,6 +31,10 @@ broadcast use vstd::std_specs::hash::group_hash_axioms;
 /// result of a shadowed `format!`: an arbitrary String (messages are not verified)
 #[verifier::external_body]
 pub fn opaque_string() -> String { String::new() }
+
+/// every argument of a shadowed `format!` is still evaluated (so a panicking argument expression is an obligation), then ignored
+#[verifier::external_body]
+pub fn fmt_arg<T: ?Sized>(t: &T) { }
 
 /// shadowed panic!/assert!: reaching it is an obligation failure
 #[verifier::external_body]
